@@ -33,6 +33,68 @@ func checkC05(c *core.Ctx) {
 	c03StratifyRule(c, rC05Two)
 	c01DeltaRules(c, rC05Two)
 	c05SortOption(c)
+	c05Stores(c)
+	c05ClauseOrder(c)
+}
+
+const (
+	rC05Store = "ORDABS.store-choice"
+	rC05Perm  = "ORDABS.clause-order"
+)
+
+// c05Stores: whichever in-memory store is chosen, it answers like the same mathematical set (so the facts a program
+// derives, and what is read back from the store afterwards, do not depend on the choice).
+func c05Stores(c *core.Ctx) {
+	c.Rule(rC05Store, "each in-memory fact store, read from source and evaluated on every history of up to three add/remove operations over three binary atoms and a zero-arity atom, answers Add, Remove, Contains, all query patterns, EstimateFactCount and ListPredicates like one and the same mathematical set (the laws of C06, repeated here because store choice is part of this property)", 4)
+	k := &astKit{c: c, ok: true}
+	ck := newConstKit(c, rC05Store)
+	if !ck.ok {
+		return
+	}
+	c06RuleOverride = rC05Store
+	defer func() { c06RuleOverride = "" }()
+	for _, impl := range storeImpls {
+		c06Laws(c, k, ck, impl, false)
+	}
+}
+
+// c05ClauseOrder: the fixpoint loop reaches the same least model whatever the order of the rules (each abstract
+// program with its rules reversed and rotated, over plain and over temporal facts).
+func c05ClauseOrder(c *core.Ctx) {
+	c.Rule(rC05Perm, "(*engine).eval, read from source and evaluated over the abstract programs with their rules reversed and rotated, over plain and over temporal facts, ends with the same least model as for the written order", 1)
+	f := c.MustFunc(rC05Perm, "engine", "engine.eval")
+	if f == nil {
+		return
+	}
+	bad, n := "", 0
+	for _, p := range absPrograms() {
+		want := p.leastModel(1000)
+		var variants []absProgram
+		rev := absProgram{name: p.name + ":reversed", facts: p.facts}
+		for i := len(p.rules) - 1; i >= 0; i-- {
+			rev.rules = append(rev.rules, p.rules[i])
+		}
+		rot := absProgram{name: p.name + ":rotated", facts: p.facts, rules: append(append([]absRule{}, p.rules[1:]...), p.rules[0])}
+		variants = append(variants, rev, rot)
+		for _, v := range variants {
+			for _, temporal := range []bool{false, true} {
+				e := newEngineFixMode(c, rC05Perm, v, 0, temporal)
+				if e == nil {
+					return
+				}
+				final, isErr, returned, err := e.runEval(f, 400000)
+				if !runORD(c, rC05Perm, f.Name, f, err) {
+					return
+				}
+				n++
+				miss, extra := diffSets(final, want)
+				if (!returned || isErr || len(miss) > 0 || len(extra) > 0) && bad == "" {
+					bad = fmt.Sprintf("program %s (temporal facts=%v): returned=%v error=%v, missing %v, extra %v compared with the least model of the written order", v.name, temporal, returned, isErr, miss, extra)
+				}
+			}
+		}
+	}
+	c.Check(bad == "", rC05Perm, f.Name, f.Decl.Pos(), fmt.Sprintf("%d evaluations of reordered programs reach the same least model", n), bad)
 }
 
 func c05Packages(c *core.Ctx) {
@@ -110,6 +172,78 @@ func c05Packages(c *core.Ctx) {
 		}
 	}
 	c.Check(bad == "", rC05Pkg, f.Name, f.Decl.Pos(), "all seven literal kinds are prefixed", bad)
+	c05OwnPackage(c, q)
+}
+
+// c05OwnPackage: Clauses() rewrites the parsed unit in place, so analysing the same unit again (or writing a body
+// atom with the package's own prefix) meets names that already carry the prefix: the package's own name must count
+// as usable. Evaluated with the real declarationMappings and a set model of stringset.
+func c05OwnPackage(c *core.Ctx, q *clauseKit) {
+	f := c.MustFunc(rC05Pkg, "packages", "Package.Clauses")
+	dm := c.MustFunc(rC05Pkg, "packages", "Package.declarationMappings")
+	if f == nil || dm == nil {
+		return
+	}
+	in := ordabs.New(c.Prog)
+	const ss = "bitbucket.org/creachadair/stringset"
+	setOf := func(v ordabs.Value) *ordabs.Obj { o, _ := v.(*ordabs.Obj); return o }
+	in.Stubs[ss+".New"] = func(in *ordabs.Interp, _ ordabs.Value, a []ordabs.Value) ([]ordabs.Value, error) {
+		o := &ordabs.Obj{Name: "stringset", Fields: map[string]ordabs.Value{}, T: "stringset.Set"}
+		items := a
+		if len(a) == 1 {
+			if sl, ok := a[0].(*ordabs.Slice); ok {
+				items = nil
+				if sl != nil {
+					items = *sl.Elems
+				}
+			}
+		}
+		for _, it := range items {
+			if str, ok := it.(string); ok {
+				o.Fields[str] = true
+			}
+		}
+		return []ordabs.Value{o}, nil
+	}
+	in.Stubs[ss+".Set.Add"] = func(in *ordabs.Interp, recv ordabs.Value, a []ordabs.Value) ([]ordabs.Value, error) {
+		if o := setOf(recv); o != nil {
+			for _, it := range a {
+				if str, ok := it.(string); ok {
+					o.Fields[str] = true
+				}
+			}
+		}
+		return []ordabs.Value{true}, nil
+	}
+	in.Stubs[ss+".Set.Contains"] = func(in *ordabs.Interp, recv ordabs.Value, a []ordabs.Value) ([]ordabs.Value, error) {
+		o := setOf(recv)
+		str, _ := a[0].(string)
+		return []ordabs.Value{o != nil && o.Fields[str] == true}, nil
+	}
+	X := hv("X")
+	cl := q.clause(hClause{headPred: "h", head: []hTerm{X}, prems: []hPrem{{kind: "atom", pred: "a", args: []hTerm{X}}, {kind: "atom", pred: "foo.h", args: []hTerm{X}}}})
+	fact := q.clause(hClause{headPred: "a", head: []hTerm{hc(1)}})
+	unit := q.k.zero("parse", "SourceUnit")
+	cls := []ordabs.Value{cl, fact}
+	unit.Fields["Clauses"] = &ordabs.Slice{Elems: &cls}
+	units := []ordabs.Value{unit}
+	pkg := &ordabs.Obj{Name: "package", Fields: map[string]ordabs.Value{"Name": "foo", "Atoms": (*ordabs.Slice)(nil), "units": &ordabs.Slice{Elems: &units}}, T: "packages.Package"}
+	if !q.k.ok {
+		return
+	}
+	bad := ""
+	for round := 1; round <= 2 && bad == ""; round++ {
+		in.Reset()
+		in.Fuel = 400000
+		out, err := in.Call(f, pkg, nil)
+		if !runORD(c, rC05Pkg, f.Name+":own-package", f, err) {
+			return
+		}
+		if out[1] != nil {
+			bad = fmt.Sprintf("Clauses() call %d on a unit of package foo whose rule h(X) :- a(X), foo.h(X) mentions its own package by name (and whose names carry the prefix after the first call) fails: %v", round, out[1])
+		}
+	}
+	c.Check(bad == "", rC05Pkg, f.Name+":own-package", f.Decl.Pos(), "the package's own prefix is usable; rewriting the same unit twice succeeds", bad)
 }
 
 func c05Classification(c *core.Ctx) {
